@@ -43,7 +43,8 @@ def gen_cases(g, rng, per_type, maxlen):
                 elif x < 0.82:
                     ops.append(['g', n])
                 elif x < 0.93 and at:
-                    ops.append(['A', rng.choice(at), rng.choice(["'yes'", '1', "'#FF0000'", 'None', "'above'", '1.5', "'x'", '0', '0.0', "''", '-1', 'None'])])
+                    ops.append(['A', rng.choice(at), rng.choice(["'yes'", '1', "'#FF0000'", 'None', "'above'", '1.5', "'x'", '0', '0.0', "''", '-1', 'None',
+                                                                  "'Arial,  Helvetica'", "'#800080 '", "' x'", "'bar\\tone'", "'two\\nlines'", "'a  b'"])])
                 else:
                     ops.append(['G', rng.choice(at + ['no-such'])] if at else ['g', n])
             cases.append({'type': t, 'ops': ops})
